@@ -36,6 +36,8 @@ import (
 // (Protocol https, self-signed certificate): the scripted client does TLS first, then CONNECT, and the
 // client leg of the tunnel is a *tls.Conn. "rl-" rate-limits the (plain) listener - at a rate no
 // tunnel reaches -, which wraps the client leg into a connection without ReadFrom/WriteTo.
+// "px-" (upgrade only) sends the upgrade request through a scripted upstream HTTP proxy, which answers the
+// 101 itself: the far leg is net/http's readWriteCloserBody over the connection to that proxy.
 // "lt-" (longevity.go) sets every timeout the proxy, its transport and its dialers have to 300-500 ms:
 // none of them may touch a tunnel once it is established.
 //
@@ -48,7 +50,9 @@ var allModes = []string{"direct", "http", "https", "socks5", "connectfunc", "upg
 	"h-tls-https", "h-tls-connecttls", "rl-connectfunc", "terminate",
 	// the capability lattice of a ConnectFunc's connection (legs.go)
 	"cf-direct", "cf-nested", "cf-cwerr", "cf-fast", "cf-closeonly", "cf-fast-closeonly", "cf-iopipe", "cf-netpipe",
-	"h-cf-closeonly", "tls-cf-closeonly", "rl-cf-iopipe", "tls-cf-netpipe", "h-cf-iopipe"}
+	"h-cf-closeonly", "tls-cf-closeonly", "rl-cf-iopipe", "tls-cf-netpipe", "h-cf-iopipe",
+	// 101 upgrades through an upstream HTTP proxy
+	"px-upgrade", "h-px-upgrade"}
 
 const nSlots = 16
 
@@ -57,6 +61,7 @@ type modeSpec struct {
 	tlsListener bool // the proxy listens with TLS
 	rateLimited bool // the proxy's listener is rate-limited (client leg wrapped)
 	shortLimits bool // every timeout of the proxy / transport / dialer is a few hundred milliseconds
+	viaProxy    bool // upgrade: the request goes through a scripted upstream HTTP proxy
 	base        string
 }
 
@@ -71,6 +76,8 @@ func parseMode(mode string) (m modeSpec) {
 			m.rateLimited, mode = true, mode[3:]
 		case strings.HasPrefix(mode, "lt-"):
 			m.shortLimits, mode = true, mode[3:]
+		case strings.HasPrefix(mode, "px-"):
+			m.viaProxy, mode = true, mode[3:]
 		default:
 			m.base = mode
 			return m
@@ -237,7 +244,11 @@ func newEnv(ctx *core.Ctx, mode string) (*env, error) {
 		if err != nil {
 			return nil, err
 		}
-		routes = append(routes, rig.Route("up.test", "80", p.Addr))
+		if e.spec.viaProxy {
+			routes = append(routes, rig.Route("upstream.test", "3128", p.Addr))
+		} else {
+			routes = append(routes, rig.Route("up.test", "80", p.Addr))
+		}
 	default:
 		return nil, fmt.Errorf("unknown mode %q", mode)
 	}
@@ -279,6 +290,10 @@ func newEnv(ctx *core.Ctx, mode string) (*env, error) {
 				cfg.UpstreamProxy = rig.MustURL("socks5://socks.test:1080")
 			case "connectfunc", "connecttls":
 				cfg.ConnectFunc = e.connectFunc
+			case "upgrade":
+				if e.spec.viaProxy {
+					cfg.UpstreamProxy = rig.MustURL("http://upstream.test:3128")
+				}
 			}
 		},
 	}
